@@ -462,6 +462,32 @@ func (h *VerifHarness) JobFinish(j *VerifJob, how, msg string) (recorded bool) {
 	return recorded
 }
 
+// JobsCatchSignal does what the job monitors of the running jobs do when mrp
+// dies or is signalled (they get SIGTERM through the process group or
+// PR_SET_PDEATHSIG): mrjob's HandleSignal records "_errors: Caught signal
+// terminated" and journals it.  These writes belong to other processes than
+// the dead mrp, so they are not suppressed.  Returns the jobs concerned.
+func (h *VerifHarness) JobsCatchSignal() []string {
+	var out []string
+	for _, j := range h.Jobs {
+		if j.Step != 1 && j.Step != 2 {
+			continue
+		}
+		md := j.job
+		if md == nil {
+			continue
+		}
+		if _, err := os.Stat(md.MetadataFilePath(CompleteFile)); err == nil {
+			continue
+		}
+		os.WriteFile(md.MetadataFilePath(Errors), []byte("Caught signal terminated"), 0o644)
+		os.WriteFile(md.journalPath+"."+md.journalPrefix+string(Errors), []byte(util.Timestamp()), 0o644)
+		j.Step = 3
+		out = append(out, j.Key())
+	}
+	return out
+}
+
 // Pending returns the jobs which have not finished, in submission order.
 func (h *VerifHarness) Pending() []*VerifJob {
 	var out []*VerifJob
